@@ -694,6 +694,16 @@ def _jname(v):
         "string" if isinstance(v, str) else "list" if isinstance(v, list) else "struct" if isinstance(v, dict) else "null"
 
 
+def constants_only(S, t):
+    """A union whose branches are all constants or (references to) enums."""
+    return t["k"] == "union" and all(sc.resolve(S, b)["k"] in ("const", "enum", "ienum") for b in t["ts"])
+
+
+def first_constant(S, t):
+    b = sc.resolve(S, t["ts"][0])
+    return sc.jv_to_py(b["v"]) if b["k"] == "const" else b["vals"][0]
+
+
 def value_type(S, f):
     """The property's value types (bool, integer, float, string, enum member, list, struct with partial overrides,
     union branch) + constants; falsy defaults are kept apart (false / 0 / [] are the classic `if default` victims)."""
@@ -727,6 +737,11 @@ def value_type(S, f):
     if k == "struct":
         return "struct-override" if d else "struct-empty-override"
     if k == "union":
+        if constants_only(S, r):
+            # `1 | 2 | *3`: every branch is a constant (or a named enum): generators turn such a disjunction into an enum whose
+            # members are NAMED after the constants; the default designates a member by VALUE
+            # (a branch that is a named enum is a witness class of its own: its members come from another object)
+            return "constants-disjunction-" + ("enum-ref" if any(b["k"] != "const" for b in r["ts"]) else _jname(d))
         return "union-branch-" + _jname(d)
     if k == "dunion":
         return "union-branch-struct"
@@ -762,6 +777,8 @@ def clause_of(S, f, expected, has, real):
         return "dropped"
     if r["k"] in ("enum", "ienum") and real == r["vals"][0] and expected != real:
         return "dropped"
+    if constants_only(S, r) and sc.json_equal(real, first_constant(S, r)) and not sc.json_equal(expected, real):
+        return "dropped"          # the first constant: what stands there when the disjunction declares no default
     if r["k"] == "dunion" and isinstance(real, dict) and isinstance(expected, dict) and real.get(r["disc"]) != expected.get(r["disc"]):
         return "dropped"
     if r["k"] == "struct" and isinstance(real, dict) and isinstance(expected, dict) and holds(default_doc(S, r), real):
